@@ -13,28 +13,26 @@ Fixpoint chain (a b : nat) (l : list tree) : Prop :=
   end.
 
 (* Every node covers a contiguous range inside the source, its text is the
-   source slice of that range, and its children (if any) tile the range.
-   [relax = true] is the variant that tolerates the recorded Redir defect. *)
-Inductive WF (relax : bool) (src : bytes) : tree -> Prop :=
+   source slice of that range, and its children (if any) tile the range. *)
+Inductive WF (src : bytes) : tree -> Prop :=
 | WF_node k a f e x ch :
     f <= e -> e <= length src ->
-    x = slice src (text_from relax (T k a f e x ch)) e ->
+    x = slice src f e ->
     (ch <> [] -> chain f e ch) ->
-    Forall (WF relax src) ch ->
-    WF relax src (T k a f e x ch).
+    Forall (WF src) ch ->
+    WF src (T k a f e x ch).
 
 Definition errs_in_range (src : bytes) (errs : list perr) : Prop :=
   Forall (fun e => e_from e <= e_to e /\ e_to e <= length src) errs.
 
 (* The property on what a parse returned. *)
-Definition Spec_C01_gen (relax : bool) (src : bytes) (t : tree) (errs : list perr) : Prop :=
-  WF relax src t
+Definition Spec_C01 (src : bytes) (t : tree) (errs : list perr) : Prop :=
+  WF src t
   /\ t_from t = 0
   /\ leaves t = firstn (t_to t) src
   /\ (t_to t = length src \/ exists e, In e errs /\ e_from e = t_to t)
   /\ errs_in_range src errs.
 
-Definition Spec_C01 := Spec_C01_gen false.
 
 Lemma chainb_sound l : forall a b, chainb a b l = true -> chain a b l.
 Proof.
@@ -50,7 +48,7 @@ Proof.
   - destruct H as [H1 H2]. apply andb_true_iff; split; [now apply Nat.eqb_eq|auto].
 Qed.
 
-Lemma wfb_sound relax src : forall t, wfb relax src t = true -> WF relax src t.
+Lemma wfb_sound src : forall t, wfb src t = true -> WF src t.
 Proof.
   fix IH 1. intros [k a f e x ch] H.
   cbn [wfb] in H.
@@ -66,7 +64,7 @@ Proof.
     + cbn in Hall. apply andb_true_iff in Hall as [_ Hr]. now apply IHc.
 Qed.
 
-Lemma wfb_complete relax src : forall t, WF relax src t -> wfb relax src t = true.
+Lemma wfb_complete src : forall t, WF src t -> wfb src t = true.
 Proof.
   fix IH 2. intros t H. destruct H as [k a f e x ch Hfe Hel Hx Hch Hall].
   cbn [wfb]. repeat (apply andb_true_iff; split).
@@ -78,10 +76,9 @@ Proof.
     apply andb_true_iff; split; [now apply IH|exact IHr].
 Qed.
 
-Lemma check_C01_gen_sound relax src t errs :
-  check_C01_gen relax src t errs = true -> Spec_C01_gen relax src t errs.
+Lemma check_C01_sound src t errs : check_C01 src t errs = true -> Spec_C01 src t errs.
 Proof.
-  unfold check_C01_gen, Spec_C01_gen, lossless. intros H.
+  unfold check_C01, Spec_C01, lossless. intros H.
   apply andb_true_iff in H as [H Hr]. apply andb_true_iff in H as [Hw H].
   apply andb_true_iff in H as [H Hend]. apply andb_true_iff in H as [H0 Hl].
   apply Nat.eqb_eq in H0. apply bytes_eqb_spec in Hl.
@@ -93,31 +90,6 @@ Proof.
   - unfold errs_in_range. apply Forall_forall. intros e Hin.
     rewrite forallb_forall in Hr. specialize (Hr e Hin). unfold err_in_range in Hr.
     apply andb_true_iff in Hr as [A B]. apply Nat.leb_le in A. apply Nat.leb_le in B. auto.
-Qed.
-
-Lemma check_C01_sound src t errs : check_C01 src t errs = true -> Spec_C01 src t errs.
-Proof. apply check_C01_gen_sound. Qed.
-
-(* the relaxed and the strict notion differ only on Redir nodes with a left operand *)
-Fixpoint no_redir_left (t : tree) : bool :=
-  match t with
-  | T k _ _ _ _ ch =>
-    negb (N.eqb k KRedir && match ch with T k1 _ _ _ _ _ :: _ => N.eqb k1 KCompound | [] => false end)
-    && forallb no_redir_left ch
-  end.
-
-Lemma WF_relax_strict src : forall t, no_redir_left t = true -> WF true src t -> WF false src t.
-Proof.
-  fix IH 3. intros t Hn H. destruct H as [k a f e x ch Hfe Hel Hx Hch Hall].
-  cbn [no_redir_left] in Hn. apply andb_true_iff in Hn as [Hk Hn].
-  constructor; auto.
-  - rewrite Hx. f_equal. destruct ch as [|[k1 a1 f1 e1 x1 c1] cr]; [reflexivity|].
-    cbn [text_from andb].
-    destruct (N.eqb k KRedir && N.eqb k1 KCompound) eqn:Eq; [|reflexivity].
-    discriminate Hk.
-  - clear - IH Hall Hn. induction Hall as [|c0 cr H0 Hr IHr]; constructor.
-    + cbn in Hn. apply andb_true_iff in Hn as [Hc _]. now apply IH.
-    + cbn in Hn. apply andb_true_iff in Hn as [_ Hc]. now apply IHr.
 Qed.
 
 
@@ -139,15 +111,15 @@ Qed.
 Lemma slice_empty src a : slice src a a = [].
 Proof. unfold slice. now rewrite Nat.sub_diag. Qed.
 
-Lemma chain_le relax src : forall l a b, Forall (WF relax src) l -> chain a b l -> a <= b.
+Lemma chain_le src : forall l a b, Forall (WF src) l -> chain a b l -> a <= b.
 Proof.
   induction l as [|t r IH]; intros a b Hall Hc; cbn in Hc; [lia|].
   destruct Hc as [Hf Hr]. inversion Hall as [|? ? Wt Wr]; subst.
   specialize (IH _ _ Wr Hr). destruct Wt; cbn in *. lia.
 Qed.
 
-Lemma leaves_chain relax src : forall l a b,
-  Forall (WF relax src) l ->
+Lemma leaves_chain src : forall l a b,
+  Forall (WF src) l ->
   Forall (fun t => leaves t = slice src (t_from t) (t_to t)) l ->
   chain a b l -> flat_map leaves l = slice src a b.
 Proof.
@@ -159,15 +131,15 @@ Proof.
     + eapply chain_le; eauto.
 Qed.
 
-Lemma leaves_slice relax src : forall t, WF relax src t -> leaves t = slice src (t_from t) (t_to t).
+Lemma leaves_slice src : forall t, WF src t -> leaves t = slice src (t_from t) (t_to t).
 Proof.
   fix IH 2. intros t H. destruct H as [k a f e x ch Hfe Hel Hx Hch Hall].
   destruct ch as [|c0 cr].
   - cbn in *. exact Hx.
   - cbn [t_from t_to]. change (leaves (T k a f e x (c0 :: cr))) with (flat_map leaves (c0 :: cr)).
-    apply (leaves_chain relax); auto; [|apply Hch; congruence].
+    apply leaves_chain; auto; [|apply Hch; congruence].
     clear - IH Hall. induction Hall as [|c1 cr' H1 Hr IHr]; constructor; auto.
 Qed.
 
-Lemma check_C01_complete src t errs : Spec_C01 src t errs -> wfb false src t = true.
+Lemma check_C01_complete src t errs : Spec_C01 src t errs -> wfb src t = true.
 Proof. intros [W _]. now apply wfb_complete. Qed.
